@@ -377,3 +377,71 @@ Proof. exact src_field_set_immutable. Qed.
 Print Assumptions C19_src_intake_extract_rebuilds.
 Print Assumptions C19_src_intake_field_set_retains.
 Print Assumptions C19_src_intake_field_set_immutable_copies.
+
+(* ---- round 6: the whole Array intake, universally (Struct/AliasIntakeSrcProofs.v) ---- *)
+
+(* Array[item field #f].__set__ on the caller's plain list: the instance holds a NEW _ListStruct, allocated after
+   everything the item field allocated, over what the item field's __set__ stored for each element *)
+Theorem C19_src_intake_array_typed :
+  forall (E : aenv) (CK : checks) (recf : nat -> CopyHeap.heap -> CopyHeap.child -> res (CopyHeap.heap * CopyHeap.child))
+         (rec : CopyHeap.heap -> CopyHeap.child -> res (CopyHeap.heap * CopyHeap.child)) (sup0 : aval -> aval -> aval -> M aval)
+         (nm : pystr) (u ad : aval) (ia : list (pystr * aval)),
+    checks_pass CK -> uniq_off E -> plain_owner ia -> pystr_eqb nm (s2p "_instantiated") = false ->
+    forall (f : nat) (n0 : pystr) (l : CopyHeap.loc) (h : CopyHeap.heap) (o : CopyHeap.obj),
+    CopyHeap.get h l = Some o -> CopyHeap.o_kind o = CopyHeap.KList ->
+    Src_Array_set E CK recf rec (Src_Field_set E CK recf rec sup0)
+                  (fself false false nm (item_field f n0) u ad) (AObj ia) (AV (CopyHeap.CRef l)) h =
+    lift_kids (map_kidsR (recf f) h (unlabel (CopyHeap.o_kids o)))
+      (fun h1 ks => Ok ((h1 ++ [{| CopyHeap.o_kind := CopyHeap.KWList; CopyHeap.o_kids := unlabel ks |}])%list,
+                        AObj (alist_set ia nm (AV (CopyHeap.CRef (List.length h1)))))).
+Proof. exact src_array_set_typed. Qed.
+
+(* an untyped Array: a NEW _ListStruct over the caller's items themselves (the elements are shared, as
+   AliasIntake.pos predicts at TArray None; the list is not) *)
+Theorem C19_src_intake_array_untyped :
+  forall (E : aenv) (CK : checks) (recf : nat -> CopyHeap.heap -> CopyHeap.child -> res (CopyHeap.heap * CopyHeap.child))
+         (rec : CopyHeap.heap -> CopyHeap.child -> res (CopyHeap.heap * CopyHeap.child)) (sup0 : aval -> aval -> aval -> M aval)
+         (nm : pystr) (u ad : aval) (ia : list (pystr * aval)),
+    checks_pass CK -> uniq_off E -> plain_owner ia -> pystr_eqb nm (s2p "_instantiated") = false ->
+    forall (l : CopyHeap.loc) (h : CopyHeap.heap) (o : CopyHeap.obj),
+    CopyHeap.get h l = Some o -> CopyHeap.o_kind o = CopyHeap.KList ->
+    Src_Array_set E CK recf rec (Src_Field_set E CK recf rec sup0)
+                  (fself false false nm anone u ad) (AObj ia) (AV (CopyHeap.CRef l)) h =
+    Ok ((h ++ [{| CopyHeap.o_kind := CopyHeap.KWList; CopyHeap.o_kids := unlabel (CopyHeap.o_kids o) |}])%list,
+        AObj (alist_set ia nm (AV (CopyHeap.CRef (List.length h))))).
+Proof. exact src_array_set_untyped. Qed.
+
+(* ... in the terms of the separation model: the stored location did not exist before the call, is a _ListStruct over
+   the item field's outputs, and the caller's list is unchanged *)
+Theorem C19_src_intake_array_typed_fresh :
+  forall (E : aenv) (CK : checks) (recf : nat -> CopyHeap.heap -> CopyHeap.child -> res (CopyHeap.heap * CopyHeap.child))
+         (rec : CopyHeap.heap -> CopyHeap.child -> res (CopyHeap.heap * CopyHeap.child)) (sup0 : aval -> aval -> aval -> M aval)
+         (nm : pystr) (u ad : aval) (ia : list (pystr * aval)) (f : nat) (n0 : pystr)
+         (l : CopyHeap.loc) (h : CopyHeap.heap) (o : CopyHeap.obj),
+    checks_pass CK -> uniq_off E -> plain_owner ia -> pystr_eqb nm (s2p "_instantiated") = false ->
+    extends (recf f) -> CopyHeap.get h l = Some o -> CopyHeap.o_kind o = CopyHeap.KList ->
+    forall hf inst',
+    Src_Array_set E CK recf rec (Src_Field_set E CK recf rec sup0)
+                  (fself false false nm (item_field f n0) u ad) (AObj ia) (AV (CopyHeap.CRef l)) h = Ok (hf, inst') ->
+    exists w ks, inst' = AObj (alist_set ia nm (AV (CopyHeap.CRef w))) /\ List.length h <= w /\
+                 CopyHeap.get hf w = Some {| CopyHeap.o_kind := CopyHeap.KWList; CopyHeap.o_kids := ks |} /\
+                 (exists h1, map_kidsR (recf f) h (unlabel (CopyHeap.o_kids o)) = Ok (h1, ks)) /\
+                 CopyHeap.get hf l = Some o.
+Proof. exact src_array_set_typed_fresh. Qed.
+
+Print Assumptions C19_src_intake_array_typed.
+Print Assumptions C19_src_intake_array_untyped.
+Print Assumptions C19_src_intake_array_typed_fresh.
+
+(* d[k] through a _DictStruct not bound immutable hands out the stored value, never the wrapper's body *)
+Theorem C19_src_dict_getitem :
+  forall (tb : CopyHeap.loc -> wbind) (ia : CopyHeap.loc -> pystr -> option pyval) (df : pystr -> option pyval)
+         (rec : CopyHeap.heap -> CopyHeap.child -> res (CopyHeap.heap * CopyHeap.child))
+         (fimm : bool) (ib : ibind) (nm : aval) (l : CopyHeap.loc) (h : CopyHeap.heap) (o : CopyHeap.obj)
+         (ps : list (CopyHeap.child * CopyHeap.child)) (kc : CopyHeap.child),
+    simm fimm ib = false -> CopyHeap.get h l = Some o -> CopyHeap.o_kind o = CopyHeap.KWDict ->
+    kid_pairs (CopyHeap.o_kids o) = Some ps ->
+    Src_DictStruct_getitem (env_of (fun l => Some (tb l)) ia df) rec (wview (AV (CopyHeap.CRef l)) fimm ib nm) (AV kc) h =
+    match dict_find ps kc with Some v => Ok (h, AV v) | None => Raise KeyError end.
+Proof. exact src_dict_getitem. Qed.
+Print Assumptions C19_src_dict_getitem.
